@@ -44,6 +44,15 @@ class P(Prop):
             kind = rng.choice(["electric", "electric", "mechanical"])
             c = sysrun.gen_electric_case(rng) if kind == "electric" else sysrun.gen_mechanical_case(rng)
             c["kind"] = kind
+            if kind == "electric" and rng.random() < 0.3:
+                # two machines of the same name in different categories of one switchboard (names are unique per category only)
+                for d in c["plant"]["comps"]:
+                    if pg.kind_of(d["cls"]) in ("Storage", "PtiPto"):
+                        src = [e for e in c["plant"]["comps"] if e["swb"] == d["swb"] and pg.kind_of(e["cls"]) == "Source"]
+                        if src:
+                            d["name"] = rng.choice(src)["name"]
+                            c["same_name_across_categories"] = True
+                            break
             c["fuel_spec"] = rng.choice(["IMO", "IMO", "FUEL_EU_MARITIME"])
             comps = c["plant"]["comps" if kind == "electric" else "mech"]
             perm = list(range(len(comps)))
@@ -129,25 +138,34 @@ class P(Prop):
         d = sysrun.figures_diff(a["total"], obs["b_total"])
         if d:
             return f"totals depend on the order of the component list: {d[:3]}"
-        # detail rows: one per reported component, same figures
-        want = {}
+        # detail rows: one per reported component, same figures (names only have to be unique within one category of
+        # a node, so rows are matched as a multiset, not through a dictionary)
+        want = []
         for g in a["groups"]:
             for name, r, rowed in zip(g["names"], g["res"], g["rowed"]):
                 if rowed:
-                    want[(name, g["id"])] = r
-        got = {(r["name"], r["node"]): r for r in a["detail"]}
-        if set(got) != set(want):
-            return f"detail rows {sorted(got)} but reported components are {sorted(want)}"
-        for k, row in got.items():
-            r = want[k]
+                    want.append((name, g["id"], r))
+        rows = list(a["detail"])
+        if sorted((r["name"], r["node"]) for r in rows) != sorted((n, g) for n, g, _ in want):
+            return (f"detail rows {sorted((r['name'], r['node']) for r in rows)} but the reported components are "
+                    f"{sorted((n, g) for n, g, _ in want)}")
+
+        def mismatch(row, r):
             ft = sum(m for _, m in r["fuel"])
             if abs(row["fuel_total"] - ft) > 1e-9 * max(1.0, ft):
-                return f"detail row {k}: fuel {row['fuel_total']} kg, component result {ft} kg"
+                return f"fuel {row['fuel_total']} kg, component result {ft} kg"
             if row["co2_ttw"] is not None and abs(row["co2_ttw"] - r["co2"][0]) > 1e-9 * max(1.0, abs(r["co2"][0])):
-                return f"detail row {k}: CO2 {row['co2_ttw']} kg, component result {r['co2'][0]} kg"
+                return f"CO2 {row['co2_ttw']} kg, component result {r['co2'][0]} kg"
             nox = dict(map(tuple, r["species"] or [])).get(2)
             if (row["nox"] or 0.0) != (nox or 0.0) and abs((row["nox"] or 0.0) - (nox or 0.0)) > 1e-9:
-                return f"detail row {k}: NOx {row['nox']} kg, component result {nox} kg"
+                return f"NOx {row['nox']} kg, component result {nox} kg"
+            return None
+        for name, gid, r in want:
+            cands = [i for i, row in enumerate(rows) if (row["name"], row["node"]) == (name, gid)]
+            ok = next((i for i in cands if mismatch(rows[i], r) is None), None)
+            if ok is None:
+                return f"detail row {(name, gid)}: {mismatch(rows[cands[0]], r)}"
+            rows.pop(ok)
         return None
 
     def nontrivial(self, case, obs):
@@ -156,6 +174,8 @@ class P(Prop):
 
     def tags(self, case, obs):
         t = ["kind=" + case["kind"], "spec=" + case["fuel_spec"]]
+        if case.get("same_name_across_categories"):
+            t.append("source-and-storage-of-the-same-name-on-one-switchboard")
         if "rejected" in obs:
             t.append("rejected:" + obs["rejected"].split(":")[0])
             return t
